@@ -375,7 +375,9 @@ pub fn tr_atan2(y: &Tr, x: &Tr, b: &Basis) -> Tr {
     let wr = nx.scale(&(x0 / r2)).add(&ny.scale(&(y0 / r2)));
     let wi = ny.scale(&(x0 / r2)).sub(&nx.scale(&(y0 / r2)));
     let r = r2.sqrt();
-    let wm = nx.abs().add(&ny.abs()).scale(&(1.0 / r));
+    // magnitudes include the operands' own error bounds, so that products of two rounding
+    // residues (second-order effects) stay inside the bound
+    let wm = x.amax().nil().add(&y.amax().nil()).scale(&(1.0 / r));
     let mut pr = Jet::constant(b, 1.0);
     let mut pi = Jet::zero(b);
     let mut pm = Jet::constant(b, 1.0);
